@@ -19,10 +19,11 @@ from ..core.pool import pmap
 LEVEL = 'model_checking'
 TECHNIQUE = ('explicit-state BFS over edit histories of the real DepGraph against a node/edge-set '
              'reference model + bounded exhaustive enumeration of all DAGs / cyclic digraphs / nested graphs')
-RULE = ('(a) BFS from the empty graph over {add_node, remove_node, add_dependency, remove_dependency, merge-with-pool-graph} '
+RULE = ('(a) BFS from the empty graph over {add_node, remove_node, add_dependency, remove_dependency, merge-with-pool-graph, in-place '
+        'transitive reduction / closure (on acyclic states)}, every public observer being called between the edits, '
         'x node alphabet; a state is the concrete layout (node order, index-keyed edge dict); every state is checked against the '
         'reference set model incl. copy/invert/+/<=/==/dict and aliasing; (b) all labelled DAGs and all cyclic digraphs up to the '
-        'stated node count, two insertion orders; (c) all outer graphs with nested graph nodes in the stated bounds. '
+        'stated node count, two insertion orders, incl. reduction / closure in place on a graph that has been observed; (c) all outer graphs with nested graph nodes in the stated bounds. '
         'non-trivial = concrete layouts whose node order differs from insertion order of the surviving nodes (a), DAGs with >= 2 edges (b), '
         'nested cases with an edge into or out of a graph node (c)')
 ASSUMPTIONS = ['nodes are identified by identity (RList key=id), as documented',
